@@ -206,6 +206,17 @@ def _job_dump(c):
         raise FrameworkError(res.error)
     if res.violated:
         return c, res, None, None     # the model breaks its own contract: nothing complete to replay
+    # run_tlc hands lines that are still buffered when TLC exits back as plain text: the last
+    # transitions may be among them
+    for line in res.out.splitlines():
+        if line.startswith('{"') and line.endswith("}"):
+            try:
+                edges.append(json.loads(line))
+            except ValueError:
+                pass
+    if len(edges) != res.generated - 1:
+        raise FrameworkError("dump of %s is incomplete: %d transitions printed, TLC generated %d states"
+                             % (c["name"], len(edges), res.generated))
     g = Graph(edges)
     g.check_connected()
     gpath = g.write(os.path.join(WORK, "c13-%s.ndjson" % c["name"]))
